@@ -6,6 +6,8 @@
 //	    random typed programs: the AST is printed as MPCL source for the real
 //	    compiler (compiler.Compile + circuit.Compute) and serialised for the
 //	    Lean driver; result line = outputs of the real circuit.
+//	c03 pkg       as gen; every program has package-level var / const / type
+//	    declarations of package main, shadowed by parameters and locals (gen_pkg.go)
 //	c03 witness   the fixed programs (finding witnesses, shipped test programs)
 //	c03 testsuite every `// @Test` vector of $MPCLDIR/testsuite through the real
 //	    compiler, exactly as /repo/testsuite_test.go does (implementation-side oracle)
@@ -338,9 +340,13 @@ func tagsOf(p *Program) []string {
 	return ts
 }
 
-func modeGen(args []string) {
+// modeGen: mode `gen` (no package-level declarations: the programs and the
+// random stream are those of every earlier run) and mode `pkg` (the same class
+// schedule; every program has package-level var / const / type declarations,
+// gen_pkg.go).
+func modeGen(mode string, args []string) {
 	var srcs, defect, ssaPath string
-	cf, o := hxlib.ParseCommon("gen", args, func(fs *flag.FlagSet) {
+	cf, o := hxlib.ParseCommon(mode, args, func(fs *flag.FlagSet) {
 		fs.StringVar(&srcs, "srcs", "", "sidecar file (JSON lines: source, tags per case)")
 		fs.StringVar(&defect, "defect", "", "force a probe class")
 		fs.StringVar(&ssaPath, "ssaops", "", "SSA-level op lines (one per case)")
@@ -353,6 +359,10 @@ func modeGen(args []string) {
 		defer sc.f.Close()
 	}
 	root := hxlib.NewRng(cf.Seed)
+	if mode == "pkg" {
+		// unrelated to mode gen's stream (NewRng(s) and NewRng(s+1) are one step apart)
+		root = hxlib.NewRng(cf.Seed ^ 0x9c6b).Fork()
+	}
 	exhLimit, nb := 12, 24
 	if cf.Tier == "thorough" {
 		exhLimit, nb = 14, 48
@@ -363,6 +373,12 @@ func modeGen(args []string) {
 			continue
 		}
 		opts := genOpts{maxStmts: 5, maxDepth: 3}
+		if mode == "pkg" {
+			opts.globals = 1
+			if r.Intn(100) < 40 {
+				opts.globals = 2
+			}
+		}
 		cls := r.Intn(100)
 		switch {
 		case cls < 45:
@@ -467,8 +483,8 @@ func main() {
 		os.Stdout = dn
 	}
 	switch os.Args[1] {
-	case "gen":
-		modeGen(os.Args[2:])
+	case "gen", "pkg":
+		modeGen(os.Args[1], os.Args[2:])
 	case "witness":
 		modeWitness(os.Args[2:])
 	case "grid":
@@ -479,6 +495,10 @@ func main() {
 		modeSrc(os.Args[2:])
 	case "circhash":
 		modeCircHash(os.Args[2:])
+	case "backend":
+		modeBackend(os.Args[2:])
+	case "lower":
+		modeLower(os.Args[2:])
 	default:
 		fmt.Fprintln(os.Stderr, "unknown mode", os.Args[1])
 		os.Exit(2)
